@@ -25,15 +25,17 @@ fn models(tier: Tier) -> Vec<Model> {
             v.extend(gen::m5(0).into_iter().step_by(1));
             v.extend(gen::m7(0).into_iter().step_by(1));
             v.extend(gen::m10(0));
+            v.extend(gen::m11(0));
         }
         Tier::Thorough => {
             v.extend(gen::m1(1));
-            v.extend(gen::m2(1).into_iter().step_by(7));
-            v.extend(gen::m3(1).into_iter().step_by(3));
+            v.extend(gen::m2(1).into_iter().step_by(1));
+            v.extend(gen::m3(1).into_iter().step_by(1));
             v.extend(gen::m4(1));
             v.extend(gen::m5(1).into_iter().step_by(1));
             v.extend(gen::m7(1).into_iter().step_by(1));
             v.extend(gen::m10(1));
+            v.extend(gen::m11(1));
         }
     }
     // half-reified constraints must not tighten anything while the literal is free: a stride of
